@@ -45,6 +45,23 @@ def split(g, ir, cut=False, labels=(), maps=(), values=(), site=None, commit=Non
     elif t == "cut":
         for a in split(g, ir["p"], True, labels, maps, values, site, commit, path, counter):
             yield a
+    elif t == "seq" and ir.get("dispatch_arm") and len(ir["items"]) == 2:
+        # an arm of dispatch!: the guard only looks at the next character (the arms exclude each other), the alternatives are
+        # those of the arm's parser
+        guard, body = ir["items"][0]["p"], ir["items"][1]["p"]
+        gsets = []
+        g.walk(guard, lambda n: gsets.append(n["cs"]) if n["t"] == "set" else None, follow=False)
+        try:
+            fs = g.first(body)
+        except Exception:
+            fs = None
+        covered = fs is not None and len(gsets) == 1 and peg.cs_inter(fs, peg.cs_compl(gsets[0])) in (("in", frozenset()),)
+        if covered:
+            for a in split(g, body, cut, labels, maps, values, site, commit, path, counter):
+                yield a
+        else:
+            # the guard lets through fewer characters than the arm's parser starts with: not the plain choice of its alternatives
+            yield dict(lit=None, rest=[dict(n=guard, cut=cut, keep=False), dict(n=body, cut=cut, keep=True)], labels=labels, maps=maps, values=values, site=site, commit=commit, head=ir, path=path)
     elif t == "seq" and ir["items"]:
         items = ir["items"]
         tail = [dict(n=i["p"], cut=cut, keep=i["keep"]) for i in items[1:]]
